@@ -294,6 +294,14 @@ def settle_temporaries(relpath: str, tree: ast.Module) -> Tuple[int, int]:
             all_uses = [n for n in ast.walk(fn) if isinstance(n, ast.Name) and n.id == v and isinstance(n.ctx, ast.Load)]
             if not all_uses or len(uses_later) != len(all_uses):
                 continue
+            if len(all_uses) > 1:
+                # several uses: only a pure expression over names that are bound once may be duplicated
+                pure = not any(isinstance(n, (ast.Call, ast.Await, ast.Yield, ast.YieldFrom, ast.ListComp, ast.SetComp, ast.DictComp, ast.GeneratorExp, ast.Lambda, ast.NamedExpr, ast.Starred))
+                               for n in ast.walk(st.value))
+                once = all(sum(1 for x in _own_nodes(fn) if isinstance(x, ast.Name) and x.id == n.id and isinstance(x.ctx, (ast.Store, ast.Del))) <= 1
+                           for n in ast.walk(st.value) if isinstance(n, ast.Name))
+                if not (pure and once) or len(all_uses) > 6:
+                    continue
             # an accumulator (receiver of a method call, subscripted, container literal) is not a temporary
             if isinstance(st.value, (ast.List, ast.Dict, ast.Set, ast.ListComp, ast.DictComp, ast.SetComp)) or (isinstance(st.value, ast.Call) and isinstance(st.value.func, ast.Name) and st.value.func.id in ("list", "dict", "set", "bytearray")):
                 # a container that is only read once (iterated, passed on) is a temporary; one that is touched in place is not
